@@ -193,7 +193,7 @@ def report(pid, tier, seed, mod, clauses, jobs, results, herr, t0, write_evidenc
         else:
             body = {'property': pid, 'clause': v['clause'], 'sig': v['sig'], 'msg': v['msg'],
                     'case': v['case'], 'readable': v['readable']}
-            h = hashlib.sha1(json.dumps(body['case'], sort_keys=True).encode()).hexdigest()[:10]
+            h = hashlib.sha1((v['sig'] + json.dumps(body['case'], sort_keys=True)).encode()).hexdigest()[:10]
             path = os.path.join(core.VERIF, 'replays', 'found', '%s-%s.json' % (pid, h))
             os.makedirs(os.path.dirname(path), exist_ok=True)
             with open(path, 'w') as f:
@@ -239,8 +239,8 @@ def report(pid, tier, seed, mod, clauses, jobs, results, herr, t0, write_evidenc
     if out_lines:
         return 1
     if herr:
-        for h in herr[:5]:
-            sys.stderr.write('HARNESS-ERROR %s\n' % h)
+        for h in herr[:2]:
+            sys.stderr.write('HARNESS-ERROR %s\n' % h[-1500:])
         return 2
     return 0
 
